@@ -1045,6 +1045,11 @@ def _form(draw, group):
         f["mapper"] = draw(st.sampled_from(["id", "merge2", "late2", "late2"]))
         if f["mapper"] == "late2":
             f["d"] = draw(st.integers(1, 4))
+            if draw(st.integers(0, 1)) == 0:  # favour the replay overloads with a finite window / buffer for the late subscription
+                f["base"] = base = draw(st.sampled_from(["replay", "replay", "mc_replay"]))
+                f.pop("init", None)
+                f["buf"] = draw(st.sampled_from([None, None, 1, 2]))
+                f["win"] = draw(st.sampled_from([0, 1, 1, 2, 3]))
     return f
 
 
